@@ -348,3 +348,117 @@ func reachableAvoidingEdges(start *ssa.BasicBlock, stop map[*ssa.BasicBlock]bool
 	}
 	return seen
 }
+
+// ---- additional necessary condition found by the third round of seeded changes ----
+
+func init() {
+	reg := registry["C05"]
+	reg.Meta.Rules["C05.6"] = "a structure written into freshly allocated space is exactly as long as the allocation (size expressions of the allocation and of the written buffer agree)"
+	reg.Rules = append(reg.Rules, c05allocFits)
+}
+
+// sizeExpr: canonical symbolic size (constant + field/parameter/pure-call terms).
+func (c *Ctx) sizeExpr(v ssa.Value) (string, bool) {
+	k, s, ok := c.posUnder(v, nil, 0)
+	if !ok {
+		return "", false
+	}
+	return posString(k, s), true
+}
+
+// writtenLenAt: in fn, the buffers written at the address parameter pa (Writer.WriteAt / WriteAtAddress / WriterAt.WriteAt).
+func (c *Ctx) writtenLenAt(fn *ssa.Function, pa *ssa.Parameter) []ssa.Value {
+	var out []ssa.Value
+	for _, site := range callsIn(fn) {
+		name := ""
+		if site.Common().IsInvoke() {
+			name = site.Common().Method.Name()
+		} else if f := site.Common().StaticCallee(); f != nil {
+			name = f.Name()
+		}
+		if name != "WriteAt" && name != "WriteAtAddress" {
+			continue
+		}
+		args := site.Common().Args
+		if len(args) < 2 {
+			continue
+		}
+		addr := args[len(args)-1]
+		for {
+			if cv, ok := addr.(*ssa.Convert); ok {
+				addr = cv.X
+				continue
+			}
+			break
+		}
+		if addr != ssa.Value(pa) {
+			continue
+		}
+		out = append(out, args[len(args)-2])
+	}
+	return out
+}
+
+func c05allocFits(c *Ctx, r *Result) {
+	n := 0
+	for _, fn := range c.LibFuncs() {
+		pk := shortPkg(fnPkgPath(fn))
+		if pk != "structures" && pk != "hdf5" && pk != "writer" && pk != "core" {
+			continue
+		}
+		for _, site := range callsIn(fn) {
+			if !strings.HasSuffix(callName(c, site), ".Allocate") {
+				continue
+			}
+			call, ok := site.(*ssa.Call)
+			if !ok {
+				continue
+			}
+			size := call.Call.Args[len(call.Call.Args)-1]
+			var addr ssa.Value
+			for _, ref := range *call.Referrers() {
+				if ex, isEx := ref.(*ssa.Extract); isEx && ex.Index == 0 {
+					addr = ex
+				}
+			}
+			if addr == nil {
+				continue
+			}
+			nExpr, okN := c.sizeExpr(size)
+			// uses of addr as the address argument of a module function that writes there
+			for _, ref := range *addr.Referrers() {
+				use, isCall := ref.(*ssa.Call)
+				if !isCall {
+					continue
+				}
+				callee := use.Call.StaticCallee()
+				if callee == nil || !inModule(fnPkgPath(callee)) || len(callee.Blocks) == 0 {
+					continue
+				}
+				for ai, a := range use.Call.Args {
+					if a != addr || ai >= len(callee.Params) {
+						continue
+					}
+					for _, buf := range c.writtenLenAt(callee, callee.Params[ai]) {
+						mk, isMk := buf.(*ssa.MakeSlice)
+						if !isMk {
+							continue
+						}
+						lExpr, okL := c.sizeExpr(mk.Len)
+						cons := c.Name(fn) + "~" + c.Name(callee) + "#allocation-equals-written-length"
+						if !okN || !okL {
+							r.Undec("C05.6", cons, c.InstrPos(call), "size expressions not resolved (allocated "+nExpr+", written "+lExpr+")")
+							continue
+						}
+						n++
+						r.Check(nExpr == lExpr, "C05.6", cons, c.InstrPos(call), "allocated "+nExpr+" bytes, "+c.Name(callee)+" writes "+lExpr+" bytes at that address (a longer write runs into the next allocation, a shorter one leaves a gap the size fields do not describe)")
+					}
+				}
+			}
+		}
+	}
+	if n < 2 {
+		r.Errorf("C05.6: only %d allocate-then-write pairs resolved", n)
+	}
+	r.Floor("C05.6", 2)
+}
